@@ -16,6 +16,7 @@ import VsbModel.Model.FsTrace
 import VsbModel.Model.Proto
 import VsbModel.Model.Upload
 import VsbModel.Model.ListProto
+import VsbModel.Model.Encryptor
 
 /-!
 Line-protocol driver for the executable models: one request per line `<op> <json>`, one JSON
@@ -667,6 +668,20 @@ def opListProto (j : Json) : Except String Json := do
     | .notFound n => Json.mkObj [("result", "notfound"), ("requests", n)]
     | .err n => Json.mkObj [("result", "err"), ("requests", n)])
 
+/-! ## encclose (C05) -/
+open Vsb.Encryptor Vsb.Split in
+/-- `encclose`: {read_ok, stderr_empty, exit: {code|signal: n}, caller_ok, flush_ok} → terminal message kind -/
+def opEncClose (j : Json) : Except String Json := do
+  let ex ← j.getObjVal? "exit"
+  let exit : Exit := match ex.getObjVal? "code" with
+    | .ok v => .code (v.getNat?.toOption.getD 0)
+    | .error _ => .signal ((ex.getObjVal? "signal").toOption.bind (fun v => v.getNat?.toOption) |>.getD 9)
+  let reader := readerResult (boolField j "read_ok" true) (boolField j "stderr_empty" true) exit 7
+  let r := close {} (boolField j "caller_ok" true) (boolField j "flush_ok" true) reader
+  let kind : String := match r.2.1 with
+    | some (.eof _) => "eof" | some (.err _) => "err" | some (.payload _) => "payload" | none => "none"
+  pure (Json.mkObj [("terminal", kind), ("finish", if r.2.2 then "ok" else "err")])
+
 def dispatch (op : String) (j : Json) : Except String Json :=
   match op with
   | "split" => opSplit j
@@ -684,6 +699,7 @@ def dispatch (op : String) (j : Json) : Except String Json :=
   | "runops" => opRunOps j
   | "proto" => opProto j
   | "listproto" => opListProto j
+  | "encclose" => opEncClose j
   | "cfgload" => opCfgload j
   | "cfgpath" => opCfgpath j
   | "verify" => opVerify j
